@@ -13,6 +13,7 @@ from lib import vlib, qprogs
 
 PROP = ["Properties/C05.v"]
 BIG = 1 << 62
+WALL_BOUND = 4.0     # seconds of wall-clock allowed to a library call that runs under cpu=100000, mem=16 MiB
 TRUSTED = [
     "Coq 8.16.1 kernel (coqc); no axioms in the C05 theorems",
     "model Ctx/Model.v + Ctx/NestModel.v tied to the Go manager by the C07 correspondence (gvh ctx vs extracted oracle)",
@@ -267,6 +268,55 @@ def run(tier, seed):
         elif any(e[0] == "gc-of-killed-ran" for e in evs):
             ck.violation("a __gc finaliser of a value created in a killed context ran (the killed computation continues from its finaliser)", rep)
 
+    # ------------------------------------------------------------ the same exactness for a limit set INSIDE a limited context
+    # runtime.callcontext({kill={cpu=L}}, body) under an outer CPU limit, after the parent has used P ticks of its own: the
+    # inner context is killed exactly for L <= u (u = its own usage when L is out of reach), whatever P is — in particular
+    # for P < L, P = L and P > L (the child's limit is min(L, what the parent has left), never "L minus what the parent used")
+    nest_progs = []
+    nnest = 16 if tier == "quick" else 300
+    fam_names = ("loop", "while", "nested", "rec", "closure", "concat", "table", "sort", "strlib", "meta", "coro", "goto", "err_str", "pcallerr")
+    while len(nest_progs) < nnest:
+        fam = dict(qprogs.bodies(rng))
+        name = rng.choice(fam_names)
+        nest_progs.append((name, fam[name]))
+    OUTER = 50000000
+
+    def nest_src(body, P, L):
+        return ("local p=0 for i=1,%d do p=p+1 end "
+                "local c=runtime.callcontext({kill={cpu=%d}},function() %s end) emit('inner',c.status) emit('after')" % (P, L, body))
+
+    nb = [parse(l) for l in vlib.run_lines_resilient(
+        gvh, ["lua"], ["n%d %s cpu=%d" % (k, hexs("local c=runtime.callcontext({kill={cpu=%d}},function() %s end) emit('inner',c.status,c.used.cpu)"
+                                                    % (OUTER // 2, body)), OUTER) for k, (_, body) in enumerate(nest_progs)], per_case_timeout=30)]
+    ncases = []
+    for k, ((name, body), o) in enumerate(zip(nest_progs, nb)):
+        evs = [decode_event(e) for e in o.get("trace", [])]
+        inner = [e for e in evs if e and e[0] == "inner"]
+        if o["status"] != "ok" or not inner or not inner[-1][2].startswith("i"):
+            ck.violation("nested baseline did not run: %s" % o["raw"][:200], {"kind": "harness", "program": body})
+            continue
+        u = int(inner[-1][2][1:])
+        want_unlimited = inner[-1][1]
+        for L in sorted({max(1, u - 1), u, u + 1, u + 2, max(1, u // 2)}):
+            for P in sorted({0, 1, max(0, L // 2), L, L + 1, 3 * L + 7}):
+                ncases.append((name, body, u, want_unlimited, L, P))
+    nlines = ["N%d %s cpu=%d" % (k, hexs(nest_src(body, P, L)), OUTER) for k, (_, body, u, wu, L, P) in enumerate(ncases)]
+    nouts = [parse(l) for l in vlib.run_lines_resilient(gvh, ["lua"], nlines, per_case_timeout=30)]
+    for (name, body, u, wu, L, P), o in zip(ncases, nouts):
+        ck.case("nested:%s@L=%d,P=%d" % (body, L, P), True)
+        ck.count("nested:L<=u" if L <= u else "nested:L>u")
+        evs = [decode_event(e) for e in o.get("trace", [])]
+        inner = [e for e in evs if e and e[0] == "inner"]
+        got = inner[-1][1] if inner else None
+        want = "killed" if L <= u else wu
+        if o["status"] != "ok" or got != want or ["after"] not in evs:
+            ck.violation("nested context, body %s: inner usage is %d ticks, inner limit %d, parent had used about %d of %d: inner status %s, expected %s"
+                         % (name, u, L, 3 * P, OUTER, got, want),
+                         {"kind": "Go!=S", "engine": "lua", "program": nest_src(body, P, L), "limit_cpu": OUTER, "inner_usage_unlimited": u,
+                          "inner_limit": L, "parent_preburn_iterations": P, "limited": o["raw"][:600],
+                          "theorem": "C07_child_budget / C05_limit_above_usage_same_behaviour: the child's limit is min(L, parent's remaining budget)"})
+    ck.cov["nested_limit_runs"] = len(ncases)
+
     # ------------------------------------------------------------ amplification: no unmetered operation
     amp_cases = []
     exps = (10, 16, 20, 24, 30, 34, 40) if tier == "quick" else tuple(range(8, 41, 2))
@@ -275,6 +325,7 @@ def run(tier, seed):
             amp_cases.append((name, e, tmpl % (1 << e)))
     alines = ["a%d %s cpu=%d mem=%d" % (k, hexs(src), 100000, 16 << 20) for k, (_, _, src) in enumerate(amp_cases)]
     t0 = time.time()
+    worst_wall = (0.0, None)
     aouts = []
     # run one by one to time each case (wall-clock per tick is the observable for "bounded real work")
     slow = []
@@ -292,6 +343,21 @@ def run(tier, seed):
                 ck.violation("library call %s with N=2^%d under cpu limit 100000: %s (work not metered)" % (name, e, o["status"]), rep)
         elif o["status"] == "killed" and o["ucpu"] >= 100000:
             ck.violation("amplifier %s: used >= kill" % name, rep)
+        else:
+            # "the real work done between two counter increments is bounded": 100000 ticks and 16 MiB are a few
+            # milliseconds of interpreter work; WALL_BOUND leaves three orders of magnitude for a loaded machine
+            wall = int(o.get("W", "0")) / 1e6
+            if wall > worst_wall[0]:
+                worst_wall = (wall, "%s N=2^%d" % (name, e))
+            if wall > WALL_BOUND:
+                k = ck.known_match(lambda kf: kf.get("match", {}).get("class") == "unmetered-op" and kf["match"].get("amplifier") == name)
+                if k:
+                    ck.known_finding(k)
+                else:
+                    rep["wall_seconds"] = wall
+                    ck.violation("library call %s with N=2^%d ran for %.1f s under a CPU limit of 100000 ticks (status %s, %d ticks "
+                                 "charged): work is done that the counter does not see" % (name, e, wall, o["status"], o.get("ucpu", 0)), rep)
+    ck.cov["amplifier_worst_wall_seconds"] = {"seconds": round(worst_wall[0], 3), "case": worst_wall[1], "bound": WALL_BOUND}
     ck.log("amplification: %d cases in %.1fs" % (len(amp_cases), time.time() - t0))
 
     if not ok_obl:
